@@ -14,5 +14,6 @@ RowOK == LET r == Rows[k]  e == Block(r.lines) IN
             /\ Len(r.outs[c].hdrs) = Len(e.hdrs)
             /\ \A j \in 1..Len(e.hdrs) : r.outs[c].hdrs[j][1] = e.hdrs[j][1] /\ r.outs[c].hdrs[j][2] = e.hdrs[j][2]
             /\ ToSet(r.outs[c].flags) = e.flags
+            /\ r.outs[c].ct = e.ct
 ASSUME PrintT(<<"CENSUS", Len(Rows), Cardinality({Rows[i].lines : i \in 1..Len(Rows)})>>)
 =============================================================================
